@@ -38,7 +38,8 @@ class Contract:
     inline: str | None = None                      # pure and defined by this expression: callers substitute it
     is_property: bool = False                      # @property
     yields: str | None = None                      # generator: set expression of the yielded items
-    yield_key: int | None = None                   # generator of tuples: the ghost set holds this component of each item
+    yield_key: int | str | None = None             # generator of tuples / blocks: the ghost set holds this component / field of each item
+    yield_ghost: str | None = None                 # recursive generator: the ghost function naming what the nested call yields
     yield_check: str | None = None                 # obligation on every directly yielded item `it` (text over it and the parameters)
     runtime_ensures: dict = field(default_factory=dict)  # additional postconditions evaluated at run time only (not compiled to SMT)
     known: dict = field(default_factory=dict)      # finding id -> region predicate K (text over pre-state)
